@@ -36,6 +36,11 @@ def file_bytes(jfile):
     return pfile.build(to_records(jfile["recs"]))
 
 
+def opt(d, p):
+    """True with probability p; shrinks towards False"""
+    return d.int(0, 999) >= 1000 - int(p * 1000)
+
+
 def gen_len(d, line, big_ok):
     """record length in units, aimed at the line length `line` (bytes/gran) of the run"""
     kind = d.weighted([(5, "short"), (4, "multi"), (3, "edge"), (1, "zero"), (2, "long"), (1 if big_ok else 0, "huge")])
@@ -89,11 +94,11 @@ def gen_file(d, name, *, gran, cpus, segs, anchors, line, counter, sel_seg=1, ma
             r["hex"] = d.bytes(n * g).hex()
         elif pk == "const":
             r["x"] = d.choice([0x00, 0xff, 0x80, 0x01, r["x"]])
-        if seg == 1 and g == pfile.implied_gran(cpu, 1) and d.bool(0.3):
+        if seg == 1 and g == pfile.implied_gran(cpu, 1) and opt(d, 0.3):
             r["form"] = "short"
         counter[0] += n * g + 1
         recs.append(r)
         cur += n
-    if d.bool(entry_p):
+    if opt(d, entry_p):
         recs.append(dict(kind="entry", addr=d.int(0, entry_max)))
     return dict(name=name, offset=offset, recs=recs)
